@@ -366,6 +366,28 @@ class WrapperRoles:
                 return s_[1][1]
         return None
 
+    def _builds_message(self, fi, depth=0, seen=None):
+        """``fi`` (or a package function it calls, two levels deep) generates the violation message / calls ``.error``"""
+        seen = seen if seen is not None else set()
+        if fi.qual in seen or depth > 2:
+            return False
+        seen.add(fi.qual)
+        for sub in ast.walk(fi.node):
+            if isinstance(sub, ast.Call):
+                f_ = sub.func
+                if isinstance(f_, ast.Attribute) and f_.attr == "generate_message":
+                    return True
+                if isinstance(f_, ast.Name) and f_.id == "generate_message":
+                    return True
+        if depth < 2:
+            fl_ = get_flow(self.model, fi)
+            for n_ in fl_.cfg.nodes:
+                for call_, c_, a_ in calls_in(n_):
+                    g_ = fi_of_term(self.model, fl_.term(call_.func, n_))
+                    if g_ is not None and g_.module.name == "_checkers" and self._builds_message(g_, depth + 1, seen):
+                        return True
+        return False
+
     def _classify_call(self, n, call, cond, awaited):
         flow = self.flow
         ct = flow.term(call.func, n)
@@ -411,6 +433,10 @@ class WrapperRoles:
                         r2 = self.list_role(at_e[1])
                         if r2 and r2.startswith("inv:") and self.summ.evaluates(fi, "condition", pname, 0):
                             return dict(base, kind="INV", callee=fi, list_term=at_e[1], role=r2, param=pname)
+            if self._builds_message(fi):
+                # building the violation error re-evaluates the condition (and calls the error factory): a contract
+                # evaluation like the others, to be made while the marker is held
+                return dict(base, kind="ERRMSG", callee=fi, roles=roles)
             return dict(base, kind="CALL", callee=fi, roles=roles)
         # direct user call-outs in the wrapper itself
         f = call.func
